@@ -35,9 +35,9 @@ Definition cflist_unmarshal_chk (data : list N) : outcome cflist :=
   do ty <- go_index data 15;
   do body <- go_slice data 0 15;
   if ty =? 1 then
-    (* len(body) = 15 > 15 is false; remainder 1 -> body[:14]; 7 masks *)
-    do ev <- go_slice body 0 (zlen body - 1);
-    do ms <- masks_chk ev 0 7 [] [];
+    (* len(body) = 15 > 15 is false; more than 12 bytes: body[:12] (the rest is RFU, fix C06-2); even: 6 masks *)
+    do ev <- go_slice body 0 12;
+    do ms <- masks_chk ev 0 6 [] [];
     Ok (mkCFList (CFPMasks ms) ty)
   else
     do chs <- chans_chk body 0 5;
